@@ -48,6 +48,42 @@ class Stub(types.SimpleNamespace):
     __hash__ = object.__hash__
 
 
+class Obj(Stub):
+    """an instance stub whose class part is analysed source: `_methods` maps the names defined in the class body to their
+    FunctionDef (`_props`: the ones decorated as properties), evaluated by this interpreter on attribute access;
+    `_natives` gives plain values / callables for what the C base class provides; `_ctor` stands for `self.__class__`"""
+
+
+def _attr(v, name, funcs, depth):
+    if isinstance(v, Obj):
+        d = vars(v)
+        if name == "__class__":
+            return d["_ctor"]
+        if name in d:
+            return d[name]
+        if name in d.get("_methods", {}):
+            fn = d["_methods"][name]
+            if depth > 8:
+                raise Unsupported("call depth")
+            if name in d.get("_props", ()):
+                return call(fn, [v], {}, funcs, depth + 1)
+            return lambda *a, **k: call(fn, [v, *a], k, funcs, depth + 1)
+        if name in d.get("_natives", {}):
+            return d["_natives"][name]
+        raise Unsupported(f"attribute `{name}` of the instance stub")
+    return getattr(v, name)
+
+
+def _starred(elts, env, funcs, depth):
+    out = []
+    for x in elts:
+        if isinstance(x, ast.Starred):
+            out.extend(list(ev(x.value, env, funcs, depth)))
+        else:
+            out.append(ev(x, env, funcs, depth))
+    return out
+
+
 class _Return(Exception):
     def __init__(self, value):
         self.value = value
@@ -122,7 +158,7 @@ def ev(n: ast.AST, env: dict[str, Any], funcs: dict[str, ast.FunctionDef] | None
     if isinstance(n, ast.IfExp):
         return ev(n.body if ev(n.test, env, funcs, depth) else n.orelse, env, funcs, depth)
     if isinstance(n, (ast.Tuple, ast.List)):
-        vals = [ev(x, env, funcs, depth) for x in n.elts]
+        vals = _starred(n.elts, env, funcs, depth)
         return tuple(vals) if isinstance(n, ast.Tuple) else vals
     if isinstance(n, ast.JoinedStr):
         out = ""
@@ -141,7 +177,7 @@ def ev(n: ast.AST, env: dict[str, Any], funcs: dict[str, ast.FunctionDef] | None
     if isinstance(n, ast.Attribute):
         v = ev(n.value, env, funcs, depth)
         if isinstance(v, _OPEN) or v is _dt:
-            return getattr(v, n.attr)
+            return _attr(v, n.attr, funcs, depth)
         raise Unsupported(f"attribute `{un(n)[:40]}`")
     if isinstance(n, ast.Subscript):
         v = ev(n.value, env, funcs, depth)
@@ -152,15 +188,17 @@ def ev(n: ast.AST, env: dict[str, Any], funcs: dict[str, ast.FunctionDef] | None
             return v[lo:hi:stp]
         return v[ev(n.slice, env, funcs, depth)]
     if isinstance(n, ast.Call):
-        if any(isinstance(a, ast.Starred) for a in n.args) or any(k.arg is None for k in n.keywords):
-            raise Unsupported("star arguments")
-        args = [ev(a, env, funcs, depth) for a in n.args]
+        if any(k.arg is None for k in n.keywords):
+            raise Unsupported("double-star arguments")
+        args = _starred(n.args, env, funcs, depth)
         kws = {k.arg: ev(k.value, env, funcs, depth) for k in n.keywords}
         if isinstance(n.func, ast.Name):
             if n.func.id == "cast" and len(args) == 2:
                 return args[1]
             if n.func.id == "getattr" and len(args) in (2, 3) and isinstance(args[0], _OPEN) and isinstance(args[1], str):
                 return getattr(*args)
+            if n.func.id == "type" and len(args) == 1 and isinstance(args[0], Obj):
+                return vars(args[0])["_ctor"]
             if n.func.id in _BUILTINS:
                 return _BUILTINS[n.func.id](*args, **kws)
             if n.func.id in funcs and isinstance(funcs[n.func.id], ast.FunctionDef) and depth < 4:
@@ -174,7 +212,7 @@ def ev(n: ast.AST, env: dict[str, Any], funcs: dict[str, ast.FunctionDef] | None
             if isinstance(recv, str) and n.func.attr in _STR_METHODS:
                 return getattr(recv, n.func.attr)(*args, **kws)
             if isinstance(recv, _OPEN) or recv is _dt:
-                f = getattr(recv, n.func.attr)
+                f = _attr(recv, n.func.attr, funcs, depth)
                 if callable(f):
                     return f(*args, **kws)
             if isinstance(recv, (dict, set, frozenset, list, tuple)) and n.func.attr in ("get", "keys", "values", "items", "index", "count"):
@@ -188,6 +226,17 @@ def bind(t: ast.AST, v: Any, env: dict[str, Any]) -> None:
         env[t.id] = v
     elif isinstance(t, ast.Attribute) and isinstance(t.value, ast.Name) and isinstance(env.get(t.value.id), types.SimpleNamespace):
         setattr(env[t.value.id], t.attr, v)
+    elif isinstance(t, (ast.Tuple, ast.List)) and any(isinstance(e, ast.Starred) for e in t.elts):
+        vals = list(v)
+        i = next(k for k, e in enumerate(t.elts) if isinstance(e, ast.Starred))
+        after = len(t.elts) - i - 1
+        if len(vals) < len(t.elts) - 1:
+            raise ValueError("unpack")
+        for tt, vv in zip(t.elts[:i], vals[:i]):
+            bind(tt, vv, env)
+        bind(t.elts[i].value, vals[i:len(vals) - after], env)
+        for tt, vv in zip(t.elts[i + 1:], vals[len(vals) - after:]):
+            bind(tt, vv, env)
     elif isinstance(t, (ast.Tuple, ast.List)):
         vals = list(v)
         if len(vals) != len(t.elts):
